@@ -291,7 +291,58 @@ def check_C01(ctx):
     rep.stats['exact_fragment_cases'] = exact_checked
     rep.stats.update({'head_' + k: v for k, v in heads.items()})
     rep.stats.update({'outcome_' + k: v for k, v in kinds.items()})
+    shared_evaluation(ctx, rep)
     return rep
+
+
+def shared_evaluation(ctx, rep):
+    """C01 on DAGs: pools of expressions that reuse the same sub-expression OBJECTS, evaluated in
+    sequence at several points and at bare numbers; every answer against the pure model"""
+    import props2
+    rng, tier = ctx.rng, ctx.tier
+    hs, mls = [], []
+    for _ in range(sizes(tier, 150, 3000)):
+        pool, flat = props2.share_pool(rng, rng.randint(2, 5))
+        pts = [[(2, gen.rnum(rng)), (3, gen.rnum(rng))] for _ in range(3)]
+        ops, ml = [], []
+        for _ in range(rng.randint(3, 10)):
+            e = rng.randrange(len(pool))
+            if len(sx.var_ids(flat[e])) <= 1 and rng.random() < 0.4:
+                x = gen.rnum(rng)
+                ops.append(['atnum', e, sx.num_sx(x)])
+                ml.append('ATNUM %s %s' % (sx.num_sx(x), sx.to_sx(flat[e])))
+            else:
+                p = rng.randrange(3)
+                ops.append(['at', e, p])
+                ml.append('EVAL %s %s' % (sx.point_sx(pts[p]), sx.to_sx(flat[e])))
+        hs.append({'pool': pool, 'points': [sx.point_sx(p) for p in pts], 'ops': ops})
+        mls.append(ml)
+    res = props2.run_histories(hs, fresh_oracle=False)
+    flat_lines = [l for ml in mls for l in ml]
+    model = core.run_model(flat_lines)
+    k = 0
+    for h, r, ml in zip(hs, res, mls):
+        rep.cases += 1
+        rep.distinct.add(repr(h))
+        if 'error' in r:
+            rep.oracle_failures.append({'what': 'history runner failed: ' + r['error'], 'lines': [], 'kf': None, 'history': h})
+            k += len(ml)
+            continue
+        for oi, l in enumerate(ml):
+            i, m = r['outs'][oi], model[k]
+            k += 1
+            st = core.classify(i, m)
+            rep.stats['corr_' + st] += 1
+            rep.stats['shared_evaluations'] += 1
+            if st in ('disagree', 'error'):
+                oi_, om_ = core.parse_outcome(i), core.parse_outcome(m)
+                wrong = oi_[0] != om_[0] or (oi_[0] == 'VAL' and not core.close(oi_[1], om_[1]))
+                if wrong:
+                    rep.oracle_failures.append({
+                        'what': 'evaluation %d of a sequence over expressions sharing objects: implementation %s, real-arithmetic value %s'
+                                % (oi, i, m), 'lines': [(l, i, m)], 'kf': None, 'history': props2.trim_history(h, oi)})
+                else:
+                    rep.disagreements.append({'line': l, 'impl': i, 'model': m, 'note': 'shared evaluation', 'failing_input': False})
 
 
 def label_numeric_disagreement(rep, b, i):
@@ -627,6 +678,13 @@ def check_routes(ctx, prop):
                         rep.oracle_fail('early component expression differs from Partial.as_expression()', b,
                                         [idx['PEXPR'], idx['DEXPR']])
     rep.stats.update({'at_outcome_' + k: v for k, v in kinds.items()})
+    if prop in ('C03', 'C04', 'C06', 'C07'):
+        import props2
+        keep = {'C03': ('pat', 'dat'), 'C04': ('located', 'dfat', 'at'),
+                'C06': ('pat', 'dat', 'located', 'dfat', 'dfcompat', 'pexpr', 'dexpr', 'dfcompexpr', 'at'),
+                'C07': ('pat', 'dat', 'located', 'dfat', 'dfcompat', 'at', 'pexpr', 'dexpr')}[prop]
+        props2.history_correspondence(ctx, rep, sizes(tier, 150, 3000), keep, maxlen=sizes(tier, 10, 30),
+                                      what='sequence')
     return rep
 
 
@@ -684,7 +742,15 @@ def check_C05(ctx):
                 'as_expression() evaluated at points of the original\'s domain against the late numeric partial; variable '
                 'sets; first-order results differentiated once more; distinct = (expression, variable)')
     n = sizes(tier, 350, 7000)
-    exprs = expr_pool(rng, n, max_size=11)
+    exprs = expr_pool(rng, n, max_size=11, with_patterns=False)
+    # every rule pattern (bare and under a parent): their derivatives exercise every rule on derivative shapes
+    pats = gen.rule_patterns(rng, [2, 3], per_pattern=sizes(tier, 1, 3))
+    exprs += [p_ if rng.random() < 0.5 else gen.in_context(rng, p_, [2, 3]) for p_ in pats]
+    w = ('V', 4)
+    exprs += [('Mul', [('Neg', ('V', 2)), ('Neg', ('V', 3)), ('Neg', ('Sin', ('V', 2))), w]),
+              ('Mul', [('Neg', ('V', 2)), ('Neg', ('V', 3)), ('Neg', w), ('Neg', ('Cos', w)), ('Neg', ('C', 2))]),
+              ('Power', ('V', 2), ('C', 3.5)), ('Power', ('Add', [('V', 2), ('V', 3)]), ('C', 4.25)),
+              ('Divide', ('C', 1), ('Power', ('V', 2), ('C', 5.5)))]
     b = Batch()
     recs = []
     for e in exprs:
@@ -881,6 +947,12 @@ def check_C08(ctx):
                         b2, [ia, ic], kf=kf, extra={'rewrite': b.lines[j], 'result': b.impl[j]})
     rep.stats.update({'label_' + k: v for k, v in labels.items()})
     rep.labels = labels
+    # simplification of DAGs: expressions that reuse sub-expression objects, normalised / differentiated
+    # symbolically in sequence, against the (tree) model
+    import props2
+    props2.history_correspondence(ctx, rep, sizes(tier, 150, 3000), ('norm', 'pexpr', 'dexpr', 'dfcompexpr', 'at'),
+                                  maxlen=sizes(tier, 10, 30), what='dag_simplification',
+                                  extra=props2.dag_rule_histories(rng, sizes(tier, 250, 5000)))
     return rep
 
 
